@@ -37,6 +37,12 @@ func init() {
 		Variant{ID: "c19-r4-reader-width", Prop: "C19", File: "replication/mysql56_gtid_set.go",
 			Old: "binary.Write(buf, binary.LittleEndian, uint64(len(intervals)))", New: "binary.Write(buf, binary.LittleEndian, uint32(len(intervals)))",
 			Expect: "C19-R4 shape@SIDBlock"},
+		Variant{ID: "c19-r4-reader-drops-singletons", Prop: "C19", File: "replication/mysql56_gtid_set.go",
+			Old: "\t\t\tset[sid] = append(set[sid], interval{\n\t\t\t\tstart: int64(start),\n\t\t\t\tend:   int64(end - 1),\n\t\t\t})", New: "\t\t\tif end-1 <= start {\n\t\t\t\tcontinue\n\t\t\t}\n\t\t\tset[sid] = append(set[sid], interval{\n\t\t\t\tstart: int64(start),\n\t\t\t\tend:   int64(end - 1),\n\t\t\t})",
+			Expect: "C19-R4 keep-all@reader"},
+		Variant{ID: "c19-r3-append-into-receiver", Prop: "C19", File: "replication/mariadb_gtid.go",
+			Old: "\t\t\t\tnewSet := make(MariadbGTIDSet, len(gtidSet))\n\t\t\t\tcopy(newSet, gtidSet)\n\t\t\t\tnewSet[i] = mdbOther\n\t\t\t\treturn newSet\n", New: "\t\t\t\tnewSet := append(gtidSet[:i], mdbOther)\n\t\t\t\treturn append(newSet, gtidSet[i+1:]...)\n",
+			Expect: "C19-R3 receiver-write@AddGTID"},
 		Variant{ID: "c19-r6-mariadb-order", Prop: "C19", File: "replication/mariadb_gtid.go",
 			Old: "return fmt.Sprintf(\"%d-%d-%d\", gtid.Domain, gtid.Server, gtid.Sequence)", New: "return fmt.Sprintf(\"%d-%d-%d\", gtid.Server, gtid.Domain, gtid.Sequence)",
 			Expect: "C19-R6 field-order@MariadbGTID"},
@@ -315,6 +321,48 @@ func c19R4(a *A) {
 	rk, ok2 := bias(rd, token.SUB)
 	a.check(ok1 && ok2 && wk == rk && wk == 1, rule, "end-bias@SIDBlock", w.pos(rd.Pos()), "end written as end+1, read back as x-1",
 		fmt.Sprintf("interval end bias differs: writer +%d (found=%v), reader -%d (found=%v); MySQL's internal form is exclusive (end+1)", wk, ok1, rk, ok2))
+	// every interval read is stored: inside the innermost loop the only ways not to reach the store are the error returns of the reads
+	var stores []*ssa.MapUpdate
+	instrs(rd, func(in ssa.Instruction) {
+		if mu, ok := in.(*ssa.MapUpdate); ok && loopDepth(mu.Block()) == 2 {
+			stores = append(stores, mu)
+		}
+	})
+	if len(stores) != 1 {
+		a.undecided(rule, "keep-all@reader", w.pos(rd.Pos()), "found %d interval stores in the inner loop of the SID-block reader, expected 1", len(stores))
+	} else {
+		st := stores[0]
+		// inner loop header: the innermost loop header dominating the store
+		var hdr *ssa.BasicBlock
+		for b := st.Block(); b != nil; b = b.Idom() {
+			if isLoopHeader(b) && b.Dominates(st.Block()) {
+				hdr = b
+				break
+			}
+		}
+		skipped := false
+		var why string
+		if hdr != nil {
+			body := hdr.Succs[0]
+			// can the back edge be reached from the body entry without passing the store?
+			if reachesAvoiding(body, hdr, func(b *ssa.BasicBlock) bool { return b == st.Block() }, nil) && body != st.Block() {
+				skipped = true
+				why = "an iteration can continue to the next interval without storing the one it read"
+			}
+			// conditions (other than read-error tests) guarding the store inside the loop
+			for _, ce := range dominatingConds(st.Block()) {
+				if !hdr.Dominates(ce.If.Block()) || ce.If.Block() == hdr {
+					continue
+				}
+				if _, _, isNil := nilTest(ce.Cond); !isNil {
+					skipped = true
+					why = "the store is guarded by a condition on the values read"
+				}
+			}
+		}
+		a.check(hdr != nil && !skipped, rule, "keep-all@reader", w.posOf(st), "every interval read from the block is stored",
+			"the SID-block reader does not store every interval it reads ("+why+"): the binary form of a set no longer decodes to an equal set (e.g. single-transaction intervals are lost)")
+	}
 	// previous-GTIDs event feeds the body to the reader
 	pg := w.method(w.Repl, "mysql56BinlogEvent", "PreviousGTIDs")
 	if a.need(pg != nil, rule, "mysql56BinlogEvent.PreviousGTIDs") {
